@@ -69,6 +69,9 @@ def session(draw):
         # the node is reachable again at once: the automatic reconnect succeeds - possibly while the user shuts down
         return {'kind': 'session', 'callers': callers, 'plan': plan, 'local_disconnect': local, 'reconnect_ok': True,
                 'schedule': draw(st.lists(st.integers(0, 4), min_size=10, max_size=250))}
+    if not lossy and draw(st.integers(0, 9)) == 0:
+        return {'kind': 'session', 'callers': callers, 'plan': plan, 'local_disconnect': None, 'bad_idn': True,
+                'schedule': draw(st.lists(st.integers(0, 4), min_size=10, max_size=250))}
     if not lossy and draw(st.integers(0, 7)) == 0:
         # a slow node: the reply to the first describe (during connect) takes several seconds, but less than the time-out
         return {'kind': 'session', 'callers': callers, 'plan': plan, 'local_disconnect': None, 'describe_delay': draw(st.sampled_from([2.0, 4.5, 6.5, 8.5])),
@@ -118,7 +121,13 @@ class Peer:
         parts = line.split(' ', 2) + ['', '']
         action, ident = parts[0], parts[1]
         if action == '*IDN?':
-            self.push('ISSE&SINE2020,SECoP,V2019-09-16,v1.0')
+            if w.case.get('bad_idn') and self.index == 0:
+                def later(peer=self):      # (something else listens on that port - for now; it takes a moment to answer)
+                    dsched.v_sleep(0.2)
+                    peer.push('this is not a SECoP node')
+                dsched.sched().spawn(later, _name='T:other-service')
+            else:
+                self.push('ISSE&SINE2020,SECoP,V2019-09-16,v1.0')
         elif action == 'describe':
             delay = w.case.get('describe_delay') if not w.described else 0
             w.described = True
@@ -256,6 +265,13 @@ def run_session(case, preempt=None):
     def main():
         client = fc.SecopClient('tcp://peer:1234', log=None)
         out['client'] = client
+        if case.get('bad_idn'):
+            # the first attempt meets something which is no SECoP node: it fails; the next attempt (the node is there now) starts anew
+            try:
+                client.connect()
+                out['first_connect'] = 'succeeded'
+            except Exception as e:   # noqa
+                out['first_connect'] = repr(e)
         try:
             client.connect()
         except Exception as e:   # noqa
